@@ -50,6 +50,12 @@ def branch_encodings(tier: str, seed: int) -> List[bytes]:
         else:
             out.append(bytes([op]))
             out.append(bytes([0x30, op]))
+    # the decoder also accepts an addressing prefix in front of every control transfer (length + 1): metadata, return
+    # addresses and targets must account for it
+    base = list(out)
+    for k, e in enumerate(base):
+        if e[0] not in c04.PRE_SET and (tier != "quick" or k % 3 == 0):
+            out.append(bytes([rnd.choice([0x30, 0x25, 0x22, 0x36])]) + e)
     return out
 
 
@@ -127,7 +133,8 @@ def _job_meta(arg):
         r = byid[int(x[0])]
         b = r["b"]
         op = b[1] if b[0] in c04.PRE_SET else b[0]
-        bad.append((str(x[1]), f"{r['impl']}:op{op:02X}", c04._fmt(x[2]), {"kind": "meta", "impl": r["impl"], "bytes": b[: r["n"]], "addr": r["addr"], "seed": r["seed"]},
+        pre_end = b[0] in c04.PRE_SET and (r["addr"] & 0xFFFF) == 0xFFFF       # the prefix byte is the last byte of a 64 KiB page
+        bad.append((str(x[1]), f"{r['impl']}:op{op:02X}" + (":pre-at-page-end" if pre_end else ""), c04._fmt(x[2]), {"kind": "meta", "impl": r["impl"], "bytes": b[: r["n"]], "addr": r["addr"], "seed": r["seed"]},
                     {"branches": r["br"], "len": r["ilen"], "pc_after": r["post"]["PC"], "F": r["regs"]["F"]}, r["errtext"]))
     return len(recs), bad[:3000], len(bad), len(v[3])
 
